@@ -379,7 +379,8 @@ def same_obs(pc, a, b):
             if x[1] != y[1] or not solver.entails(pc, f_and(flit(eq(x[2], y[2])), flit(eq(x[3], y[3])))):
                 return False, f"view [{x[2]}..{x[3]}) vs [{y[2]}..{y[3]})"
         elif x[0] == "bool":
-            if not (solver.entails(pc + (dnf(x[1])[0] if dnf(x[1]) else []), y[1]) and solver.entails(pc + (dnf(y[1])[0] if dnf(y[1]) else []), x[1])):
+            # x <=> y under pc: every disjunct of either side entails the other side
+            if not (all(solver.entails(pc + d, y[1]) for d in dnf(x[1])) and all(solver.entails(pc + d, x[1]) for d in dnf(y[1]))):
                 return False, "boolean results differ"
         elif x != y:
             return False, f"{x} vs {y}"
